@@ -1,5 +1,6 @@
 SPECIFICATION Spec
 CONSTANTS
+  ReferenceOnK1Line = TRUE
   OccupiedReference = TRUE
   K1s = {2, 3}
   Counts = {0, 1, 3}
